@@ -220,6 +220,7 @@ let rerr_name = function M.REof -> "eof" | M.RUnexpectedEof -> "ueof" | M.RNoPro
 let parse_sched (s : string) : M.sched_entry list =
   List.map (fun w ->
       if w = "F" then M.SFault
+      else if w = "Z" then M.SChunk (nat_of_int 0, false)
       else if String.length w > 0 && w.[String.length w - 1] = 'E'
       then M.SChunk (nat_of_int (int_of_string (String.sub w 0 (String.length w - 1))), true)
       else M.SChunk (nat_of_int (int_of_string w), false)) (split_ws s)
